@@ -119,3 +119,30 @@ Definition ia_count (ia : N) (p : opath) : nat := length (filter (fun i => fst i
 (** an AS is entered and left at most once: at most two interfaces of any AS *)
 Definition loop_free (p : opath) : bool :=
   forallb (fun i => (ia_count (fst i) p <=? 2)%nat) (o_ifs p).
+
+(** ** decoding a standard SCION path (SCION header specification, path type 1)
+    PathMeta (4 bytes): C(2) CurrHF(6) RSV(6) Seg0Len(6) Seg1Len(6) Seg2Len(6);
+    then one 8-byte info field per non-empty segment: Flags(8) RSV(8) SegID(16) Timestamp(32);
+    then 12-byte hop fields: Flags(8) ExpTime(8) ConsIngress(16) ConsEgress(16) MAC(48). *)
+Fixpoint chunks {A} (n : nat) (k : nat) (l : list A) : list (list A) :=
+  match k with O => [] | S k' => firstn n l :: chunks n k' (skipn n l) end.
+
+Definition dec_info (b : list N) : N * N * N :=
+  let w := be_val 0 b in (w / 2 ^ 56, (w / 2 ^ 32) mod 2 ^ 16, w mod 2 ^ 32).
+Definition dec_hop (b : list N) : ohop :=
+  let w := be_val 0 b in ((w / 2 ^ 80) mod 2 ^ 8, (w / 2 ^ 64) mod 2 ^ 16, (w / 2 ^ 48) mod 2 ^ 16, w mod 2 ^ 48).
+
+Fixpoint split_hops (lens : list nat) (hops : list ohop) : list (list ohop) :=
+  match lens with [] => [] | n :: r => firstn n hops :: split_hops r (skipn n hops) end.
+
+Definition decode_std (b : list N) : option (list oseg) :=
+  if (length b <? 4)%nat then None else
+  let w := be_val 0 (firstn 4 b) in
+  let lens := filter (fun n => negb (Nat.eqb n 0))
+                     [N.to_nat ((w / 2 ^ 12) mod 64); N.to_nat ((w / 2 ^ 6) mod 64); N.to_nat (w mod 64)] in
+  let k := length lens in
+  let nh := fold_right Nat.add O lens in
+  if negb (Nat.eqb (length b) (4 + 8 * k + 12 * nh)) then None else
+  let infos := map dec_info (chunks 8 k (skipn 4 b)) in
+  let hops := map dec_hop (chunks 12 nh (skipn (4 + 8 * k) b)) in
+  Some (map (fun '((fl, sid, ts), hs) => mkOS fl sid ts hs) (combine infos (split_hops lens hops))).
